@@ -212,9 +212,16 @@ def execute_case(spec: dict, *, chooser: Optional[Chooser] = None, gated: bool =
         obs.context = dict(context)
         if storage_wrapper is not None and not storage_null:
             storage = storage_wrapper(storage)
-        lab = labtech.Lab(storage=storage, continue_on_failure=lab_spec.get('continue_on_failure', True),
-                          max_workers=lab_spec.get('max_workers'), context=context, runner_backend=backend,
-                          notebook=False)
+        if lab_spec.get('late_context'):
+            # the caller hands the Lab a dict that is still empty and fills it in before calling run_tasks
+            ctx_obj: dict = {}
+            lab = labtech.Lab(storage=storage, continue_on_failure=lab_spec.get('continue_on_failure', True),
+                              max_workers=lab_spec.get('max_workers'), context=ctx_obj, runner_backend=backend, notebook=False)
+            ctx_obj.update(context)
+        else:
+            lab = labtech.Lab(storage=storage, continue_on_failure=lab_spec.get('continue_on_failure', True),
+                              max_workers=lab_spec.get('max_workers'), context=context, runner_backend=backend,
+                              notebook=False)
         if pre_hook is not None:
             pre_hook(lab, built, ctl)
         displays = lab_spec.get('displays', False)
